@@ -2,7 +2,7 @@
 
 import ast
 
-from ..astutil import call_attr, calls_in, const_value, norm, walk_own
+from ..astutil import call_recv, call_attr, calls_in, const_value, norm, walk_own
 from ..cfg import build_cfg
 from ..rules import calling
 from ..selftest import Mutant
@@ -66,7 +66,11 @@ def run(ctx):
 
         where = f"{EF}:{name}"
         fn = repo.func(EF, name)
-        fn = canonicalise(fn, bind_roles(fn, {"content": ("assign", "~.*b''\\.join\\(chunks\\).*")}, where))
+        try:
+            fn = canonicalise(fn, bind_roles(fn, {"content": ("assign", "~.*b''\\.join\\(chunks\\).*")}, where))
+        except Exception as e_:  # noqa: BLE001 - the missing join is the violation
+            ctx.check("whole-content", where, False, "the converter joins all chunks before testing for NUL", construct=str(e_)[:120], message=f"{name} no longer joins the chunks into one content before deciding text/binary: a NUL in a later chunk is not seen by the write side, while the read side (one chunk) sees it — binary files are converted on disk and not converted back")
+            continue
         g = build_cfg(fn)
         tests = [n for n in g.nodes if n.kind == "test"]
         ok = len(tests) == 1 and norm(tests[0].ast) == "b'\\x00' in content"
@@ -89,6 +93,25 @@ def run(ctx):
     rx = [s for s in mod.tree.body if isinstance(s, ast.Assign) and norm(s.targets[0]) == "_UNIX_NL_RE"]
     pat = const_value(rx[0].value.args[0]) if rx and isinstance(rx[0].value, ast.Call) and rx[0].value.args else None
     ctx.check("conversion-literals", f"{EF}:{TO_CRLF}", pat == rb"(?<!\r)\n" and any(norm(c.func) == "_UNIX_NL_RE.sub" and const_value(c.args[0]) == b"\r\n" for c in calls_in(fc)), "to-CRLF substitutes CRLF only for LFs not already preceded by CR", construct=str(pat))
+    # ---- read converters always see the whole file ------------------------------------------------------------
+    n_sites = 0
+    for rel in repo.python_files():
+        if "/tests/" in rel or ".reader(" not in repo.text(rel):
+            continue
+        for q, f in repo.module(rel).functions().items():
+            loops = [l_ for l_ in walk_own(f) if isinstance(l_, ast.For) and any(call_attr(c) == "reader" and call_recv(c) == norm(l_.target) for c in calls_in(l_))]
+            for l_ in loops:
+                n_sites += 1
+                arg = [norm(c.args[0]) for c in calls_in(l_) if call_attr(c) == "reader" and c.args][0]
+                inits = [norm(s_.value) for s_ in walk_own(f) if isinstance(s_, ast.Assign) and norm(s_.targets[0]) == arg and s_.lineno < l_.lineno and not any(s_ in ast.walk(x) for x in [l_])]
+                nested = any(isinstance(o, (ast.For, ast.While)) and o is not l_ and any(x is l_ for x in ast.walk(o)) for o in walk_own(f))
+                import re as _re
+
+                ok = bool(inits) and all(_re.fullmatch(r"\[\w+\.read\(\)\]", i_) for i_ in inits) and not nested
+                ctx.check("readers-see-whole-file", f"{rel}:{q}", ok, f"the read converters are applied once to [<file>.read()] ({inits})", construct=str(inits), message=f"{q} feeds the read converters {inits}{' block by block inside another loop' if nested else ''} instead of the whole file in one chunk: an eol converter decides text/binary and matches CR LF per call, so a CR LF pair or a NUL on the other side of a block boundary gives a different canonical content (and sha) than the one committed")
+    ctx.require(n_sites >= 2, f"only {n_sites} reader-application sites found")
+    fis = repo.func(FI, "internal_size_sha_file_byname")
+    ctx.check("readers-see-whole-file", f"{FI}:internal_size_sha_file_byname", any(norm(c.func) == "filtered_input_file" for c in calls_in(fis)), "the dirstate's sha of a filtered file is computed through filtered_input_file")
     # ---- application order ------------------------------------------------------------
     fo = repo.func(FI, "filtered_output_bytes")
     lo = [n for n in walk_own(fo) if isinstance(n, ast.For)]
@@ -99,6 +122,8 @@ def run(ctx):
 
 
 MUTANTS = [
+    Mutant("size/sha of filtered files computed block-wise", FI, "        if filters:\n            f, _size = filtered_input_file(f, filters)\n        return osutils.size_sha_file(f)\n", "        if filters:\n            out = []\n            for block in osutils.file_iterator(f):\n                chunks = [block]\n                for filter in filters:\n                    if filter.reader is not None:\n                        chunks = filter.reader(chunks)\n                out.extend(chunks)\n            f = BytesIO(b\"\".join(out))\n        return osutils.size_sha_file(f)\n", expect="readers-see-whole-file"),
+    Mutant("binary test on the first chunk only", EF, "    content = b\"\".join(chunks)\n    if b\"\\x00\" in content:\n        return [content]\n    else:\n        return [_UNIX_NL_RE.sub(b\"\\r\\n\", content)]", "    if chunks and b\"\\x00\" in chunks[0]:\n        return chunks\n    else:\n        return [_UNIX_NL_RE.sub(b\"\\r\\n\", c) for c in chunks]", expect="whole-content"),
     Mutant("'crlf' row stores CRLF in the repository", EF, "    \"crlf\": [ContentFilter(_to_lf_converter, _to_crlf_converter)],", "    \"crlf\": [ContentFilter(_to_crlf_converter, _to_crlf_converter)],", expect="table-row"),
     Mutant("conversion before the NUL test", EF, "    content = b\"\".join(chunks)\n    if b\"\\x00\" in content:\n        return [content]\n    else:\n        return [_UNIX_NL_RE.sub(b\"\\r\\n\", content)]", "    content = _UNIX_NL_RE.sub(b\"\\r\\n\", b\"\".join(chunks))\n    if b\"\\x00\" in content:\n        return [content]\n    else:\n        return [content]", expect=["nul-guard", "whole-content"]),
     Mutant("writers applied in forward order", FI, "        for filter in reversed(filters):", "        for filter in filters:", expect="application-order"),
